@@ -890,3 +890,95 @@ Proof.
     apply (block_addrs_in s ws 0 addr w); [lia|lia|lia|]. exists (addr - s). repeat split; try lia.
     replace (addr - s - 0) with (addr - s) by lia. exact En.
 Qed.
+
+(* ---------- totality: on well-formed objects whose label positions fit a usize, link never panics ---------- *)
+Definition span_fits (p : str * symdata) : Prop := sd_src_start (snd p) + byte_len (fst p) <= usize_max.
+Definition SpansFit (a b : objfile) : Prop :=
+  match o_sym a, o_sym b with
+  | Some sa, Some sb =>
+      Forall span_fits (st_labels sa) /\
+      Forall span_fits (shifted (match st_debug sa, st_debug sb with Some da, Some _ => byte_len (ds_src da) + 1 | _, _ => 0 end) (st_labels sb))
+  | _, _ => True
+  end.
+
+Lemma replace_key_in {V} k (v : V) l x : In x (replace_key k v l) -> In x l \/ x = (k, v).
+Proof.
+  induction l as [|(k', v') r IH]; cbn; [tauto|]. destruct (str_eqb k k') eqn:E.
+  - apply str_eqb_eq in E. subst. cbn. intros [H|H]; auto.
+  - cbn. intros [H|H]; auto. destruct (IH H); auto.
+Qed.
+
+Lemma merge_labels_no_panic bl : forall al rel q, Forall span_fits al -> Forall span_fits bl ->
+  merge_labels bl al rel q <> MPanic.
+Proof.
+  induction bl as [|(name, bd) r IH]; intros al rel q Ha Hb; [discriminate|].
+  inversion Hb as [|? ? Hbd Hr]; subst. cbn [merge_labels].
+  destruct (lookup name al) as [ad|] eqn:Ea.
+  - assert (Fa : span_fits (name, ad)).
+    { rewrite Forall_forall in Ha. apply Ha. eapply lookup_in; eauto. }
+    assert (Hrep : forall d, span_fits (name, d) -> Forall span_fits (replace_key name d al)).
+    { intros d Hd. apply Forall_forall. intros x Hx. apply replace_key_in in Hx. destruct Hx as [Hx| ->]; [|exact Hd].
+      rewrite Forall_forall in Ha. auto. }
+    destruct (sd_external ad), (sd_external bd); try (apply IH; auto).
+    destruct (sd_addr ad =? sd_addr bd); [apply IH; auto|].
+    unfold sym_span. unfold span_fits in Fa, Hbd. cbn [fst snd] in Fa, Hbd.
+    replace (usize_max <? sd_src_start ad + byte_len name) with false by (symmetry; apply Z.ltb_ge; exact Fa).
+    replace (usize_max <? sd_src_start bd + byte_len name) with false by (symmetry; apply Z.ltb_ge; exact Hbd).
+    discriminate.
+  - apply IH; [constructor; assumption|assumption].
+Qed.
+
+Theorem link_total a b : ObjInv a -> ObjInv b -> LinesFit a b -> SpansFit a b -> link a b <> LPanic.
+Proof.
+  intros Ia Ib Hfit Hsp Hp.
+  pose proof (objinv_blocks _ Ia) as Ha. pose proof (objinv_blocks _ Ib) as Hb.
+  (* if the link gets as far as a successful label merge, the objects are linkable and link_ok applies *)
+  assert (NotOk : ~ Linkable (view_of a) (view_of b)).
+  { intro L. destruct (link_ok a b Ia Ib Hfit L) as (r & E & _). congruence. }
+  unfold link in Hp.
+  destruct (insert_blocks (o_blocks b) (o_blocks a)) as [bs|] eqn:E; [|discriminate].
+  pose proof (blocks_ok_sorted_from _ _ Ha) as Sa. pose proof (blocks_ok_sorted_from _ _ Hb) as Sb.
+  pose proof (insert_blocks_some _ _ _ E) as Hin.
+  assert (Kb : forall s ws, In (s, ws) (o_blocks b) -> 0 <= s) by (intros s ws Hi; eapply sorted_from_in; eauto).
+  assert (Ss : sorted_from 0 bs) by (eapply insert_blocks_sorted; eauto).
+  assert (Zs : Forall sized bs).
+  { apply Forall_forall. intros x Hx. apply Hin in Hx. destruct Hx as [Hx|Hx].
+    - pose proof (blocks_ok_sized 0 _ (Z.le_refl 0) Hb) as Z. rewrite Forall_forall in Z. auto.
+    - pose proof (blocks_ok_sized 0 _ (Z.le_refl 0) Ha) as Z. rewrite Forall_forall in Z. auto. }
+  destruct (adj_check bs) eqn:Hadj; try discriminate.
+  2:{ exact (adj_check_no_panic 0 bs (Z.le_refl 0) Ss Zs Hadj). }
+  destruct (merge_blocks_inv _ _ _ Ha Hb E Hadj) as (Hs & Hd).
+  destruct (o_sym a) as [sa|] eqn:Ea, (o_sym b) as [sb|] eqn:Eb; try discriminate.
+  pose proof (objinv_sym _ _ Ia Ea) as [A1 A2 A3 A4 A5]. pose proof (objinv_sym _ _ Ib Eb) as [B1 B2 B3 B4 B5].
+  unfold SpansFit in Hsp. rewrite Ea, Eb in Hsp. destruct Hsp as (Fa & Fb).
+  unfold link_sym in Hp.
+  set (sh := match st_debug sa, st_debug sb with Some da, Some _ => byte_len (ds_src da) + 1 | _, _ => 0 end) in *.
+  fold (shifted sh (st_labels sb)) in Hp.
+  assert (Dbg : match st_debug sa, st_debug sb with
+                | Some da, Some db => match debug_link da db with Some d => Some (Some d) | None => None end
+                | Some da, None => Some (Some da)
+                | None, x => Some x end <> None).
+  { destruct (st_debug sa) as [[la ssa]|] eqn:Da, (st_debug sb) as [[lb ssb]|] eqn:Db; try discriminate.
+    cbn [ds_src ds_lines] in *.
+    assert (F : count_lines ssa + count_lines ssb <= usize_max).
+    { unfold LinesFit, nlines in Hfit. rewrite Ea, Eb, Da, Db in Hfit. exact Hfit. }
+    rewrite (debug_link_shape _ _ _ _ _ _ A5 B5 F). discriminate. }
+  destruct (match st_debug sa, st_debug sb with
+            | Some da, Some db => match debug_link da db with Some d => Some (Some d) | None => None end
+            | Some da, None => Some (Some da)
+            | None, x => Some x end) as [dbg|]; [|contradiction].
+  destruct (merge_labels (shifted sh (st_labels sb)) (st_labels sa) (rel_extend (st_rel sa) (st_rel sb)) []) as [L R Q| |] eqn:EM; try discriminate.
+  - (* merged without conflict: then the objects are linkable *)
+    apply NotOk. split.
+    + intro addr. cbn. rewrite !img_at_blocks. apply Hd.
+    + assert (Nb : NoDup (map fst (shifted sh (st_labels sb)))) by (rewrite keys_shift; exact B1).
+      destruct (merge_labels_ok _ Nb _ _ _ _ _ _ EM) as (_ & _ & _ & I5 & _).
+      intros n x y. cbn. rewrite !lbl_at_lookup, Ea, Eb.
+      destruct (lookup n (st_labels sa)) as [ad|] eqn:La; [|discriminate].
+      destruct (lookup n (st_labels sb)) as [bd|] eqn:Lb; [|discriminate].
+      unfold fsym. cbn. intros Ka Kb'.
+      assert (Xa : sd_external ad = false) by congruence. assert (Xb : sd_external bd = false) by congruence.
+      assert (Ex : x = sd_addr ad) by congruence. assert (Ey : y = sd_addr bd) by congruence. subst x y.
+      eapply (I5 n ad (shift_sym sh bd) La); [rewrite lookup_shift, Lb; reflexivity|exact Xa|exact Xb].
+  - exact (merge_labels_no_panic _ _ _ _ Fa Fb EM).
+Qed.
